@@ -236,4 +236,14 @@ theorem writeMsg_frames (sid : Nat) (ws : List Bytes) :
     exact this w.sent h3
   · simpa [payloads] using h1
 
+/-- the frames WriteBuf produces for one message are a fragmentation of that message -/
+theorem writeMsg_sess (a : Bool) (sid : Nat) (ws : List Bytes) (hl : ws.flatten.length ≤ maxSize)
+    (hne : a = true → ws.flatten ≠ []) :
+    Sess a [] (writeMsg sid WSt.init ws).sent [ws.flatten] := by
+  obtain ⟨parts, last, hs, hc, _⟩ := writeMsg_frames sid ws
+  rw [hs, ← hc]
+  have := sess_fragments a sid parts last [] [] [] (by simpa [hc] using hl)
+    (by simpa [hc] using hne) ⟨rfl, rfl⟩
+  simpa using this
+
 end Gsu.Proofs.Mux
